@@ -712,10 +712,11 @@ def nontrivial(case, out):
     return bool(out.get('up')) and case['kind'] in ('conn', 'big') and out['outcome'] == 0
 
 def classify(case, out, failure):
-    # exactly the recorded class: a request whose Transfer-Encoding value is a coding LIST ending in chunked
-    if case.get('kind') == 'te-list' and isinstance(failure, str) and (failure.startswith('te-list:') or failure == 'model-mismatch'):
+    # exactly the recorded class: a request whose Transfer-Encoding value is a coding LIST ending in chunked is taken to have
+    # no body (header section forwarded at once, body bytes never forwarded / parsed as a further request)
+    if case.get('kind') == 'te-list' and isinstance(failure, str) and 'te-list:' in failure:
         v = case['reqs'][0]['abs']['framing'][1][2].lower()
-        if b',' in v and v.split(b',')[-1].strip() == b'chunked' and failure.startswith('te-list: request with'):
+        if b',' in v and v.split(b',')[-1].strip() == b'chunked':
             return KNOWN_TE
     return None
 
